@@ -130,6 +130,7 @@ pub fn tuples(thorough: bool) -> Vec<Tuple> {
         vec![("K9", "/a/b")],
         // algorithm names one of which is a prefix of the other, followed by a character below ':' -- written in both orders
         vec![("checksum", "sha3-256:11,SHA3:00")],
+        vec![("checksum", "sha3-256:11,sha3:00"), ("b", "2")],
         vec![("CheckSum", "sha3:00,Sha3-256:11"), ("a", "1")],
         vec![("a_b", "1"), ("ab", "2"), ("a.b", "3"), ("a-b", "4"), ("a1", "5"), ("A2", "6"), ("a", "7")],
     ];
